@@ -337,6 +337,7 @@ def check_impl_table(run, inv):
     import re
     optraits = {'core::ops::arith::' + t for t in ('Add', 'Sub', 'Mul', 'Div', 'Rem', 'Neg')}
     groups = {}
+    param_rhs = set()
     for i in inv['impls']:
         if i['trait'] not in optraits:
             continue
@@ -353,11 +354,14 @@ def check_impl_table(run, inv):
         bl, br = lhs.lstrip('&'), rhs.lstrip('&')
         key = (i['trait'].split('::')[-1], bl, br)
         groups.setdefault(key, set()).add((lhs.startswith('&'), rhs.startswith('&')))
+        # a right operand that is a bare type parameter (whatever it is called) is the scalar
+        if len(parts) > 1 and re.match(r"^\w+/#\d+$", parts[1].strip()):
+            param_rhs.add(key)
     n_full = 0
     for (tr, bl, br), forms in sorted(groups.items()):
         prim_l = bl in PRIMS
         unary = tr == 'Neg'
-        scalar_r = br == 'S' or br in PRIMS
+        scalar_r = (tr, bl, br) in param_rhs or br in PRIMS
         if unary:
             want = None      # Neg by value always; by reference where the macro provides it
             ok = (False, False) in forms
